@@ -1,1 +1,896 @@
-(* Uper/Proofs.v -- stub, to be filled *)
+(* L2 proofs: the UPER writer/reader model (Uper/Writer.v, Uper/Reader.v) against the scope-free
+   reference encoder of Uper/Spec.v; round trip (C01) and SEQUENCE preamble facts (C03). *)
+From A1 Require Export Uper.Spec.
+From A1 Require Import Bits.Proofs.
+From A1 Require Import Per.Proofs.
+Require Import ZifyBool ZifyNat ZifyN.
+Local Open Scope N_scope.
+
+
+
+(** * induction principles for the nested types *)
+Section TyInd.
+  Variable P : ty -> Prop.
+  Hypothesis HBool : P TBool.
+  Hypothesis HNull : P TNull.
+  Hypothesis HInt : forall k lo hi e, P (TInt k lo hi e).
+  Hypothesis HStr : forall c lo hi e, P (TStr c lo hi e).
+  Hypothesis HOct : forall lo hi e, P (TOctets lo hi e).
+  Hypothesis HBit : forall lo hi e, P (TBitStr lo hi e).
+  Hypothesis HList : forall e lo hi x, P e -> P (TListOf e lo hi x).
+  Hypothesis HSeq : forall fs so fc ea, Forall (fun f => P (snd f)) fs -> P (TSeq fs so fc ea).
+  Hypothesis HChoice : forall alts std ext, Forall P alts -> P (TChoice alts std ext).
+  Hypothesis HEnum : forall vc std ext, P (TEnum vc std ext).
+  Fixpoint ty_ind' (t : ty) : P t :=
+    match t with
+    | TBool => HBool
+    | TNull => HNull
+    | TInt k lo hi e => HInt k lo hi e
+    | TStr c lo hi e => HStr c lo hi e
+    | TOctets lo hi e => HOct lo hi e
+    | TBitStr lo hi e => HBit lo hi e
+    | TListOf e lo hi x => HList e lo hi x (ty_ind' e)
+    | TSeq fs so fc ea =>
+        HSeq fs so fc ea
+          ((fix go (fs : list (fkind * ty)) : Forall (fun f => P (snd f)) fs :=
+              match fs with
+              | [] => Forall_nil _
+              | f :: r => Forall_cons f (match f as f0 return P (snd f0) with (k, ft) => ty_ind' ft end) (go r)
+              end) fs)
+    | TChoice alts std ext =>
+        HChoice alts std ext
+          ((fix go (l : list ty) : Forall P l :=
+              match l with
+              | [] => Forall_nil _
+              | a :: r => Forall_cons a (ty_ind' a) (go r)
+              end) alts)
+    | TEnum vc std ext => HEnum vc std ext
+    end.
+End TyInd.
+
+Definition optP (P : val -> Prop) (o : option val) : Prop := match o with Some x => P x | None => True end.
+Section ValInd.
+  Variable P : val -> Prop.
+  Hypothesis H1 : forall b, P (VBool b).
+  Hypothesis H2 : P VNull.
+  Hypothesis H3 : forall z, P (VInt z).
+  Hypothesis H4 : forall c, P (VStr c).
+  Hypothesis H5 : forall c, P (VOctets c).
+  Hypothesis H6 : forall c n, P (VBits c n).
+  Hypothesis H7 : forall vs, Forall P vs -> P (VList vs).
+  Hypothesis H8 : forall fs, Forall (optP P) fs -> P (VSeq fs).
+  Hypothesis H9 : forall i v, P v -> P (VChoice i v).
+  Hypothesis H10 : forall i, P (VEnum i).
+  Fixpoint val_ind' (v : val) : P v :=
+    match v with
+    | VBool b => H1 b
+    | VNull => H2
+    | VInt z => H3 z
+    | VStr c => H4 c
+    | VOctets c => H5 c
+    | VBits c n => H6 c n
+    | VList vs => H7 vs ((fix go (l : list val) : Forall P l :=
+                            match l with [] => Forall_nil _ | a :: r => Forall_cons a (val_ind' a) (go r) end) vs)
+    | VSeq fs => H8 fs ((fix go (l : list (option val)) : Forall (optP P) l :=
+                            match l with
+                            | [] => Forall_nil _
+                            | o :: r => @Forall_cons _ (optP P) o r
+                                          (match o as o0 return optP P o0 with
+                                           | Some x => val_ind' x | None => I end) (go r)
+                            end) fs)
+    | VChoice i x => H9 i x (val_ind' x)
+    | VEnum i => H10 i
+    end.
+End ValInd.
+
+Lemma list_eqb_N_eq a : forall b, list_eqb N.eqb a b = true -> a = b.
+Proof.
+  induction a as [|x a IH]; intros [|y b] H; cbn [list_eqb] in H; try discriminate; [reflexivity|].
+  apply andb_true_iff in H. destruct H as [H1 H2]. apply N.eqb_eq in H1. f_equal; auto.
+Qed.
+
+Lemma val_eqb_eq a : forall b, val_eqb a b = true -> a = b.
+Proof.
+  induction a as [x| |x|x|x|x n|xs IH|xs IH|i x IH|i] using val_ind'; intros [y| |y|y|y|y k|ys|ys|j y|j] H;
+    cbn [val_eqb] in H; try discriminate H.
+  - apply Bool.eqb_prop in H. congruence.
+  - reflexivity.
+  - apply Z.eqb_eq in H. congruence.
+  - apply list_eqb_N_eq in H. congruence.
+  - apply list_eqb_N_eq in H. congruence.
+  - apply andb_true_iff in H. destruct H as [H1 H2]. apply list_eqb_N_eq in H1. apply N.eqb_eq in H2. congruence.
+  - f_equal. revert ys H. induction IH as [|x xs Hx _ IHl]; intros [|y ys] H; try discriminate H; [reflexivity|].
+    apply andb_true_iff in H. destruct H as [H1 H2]. f_equal; [apply Hx; exact H1|apply IHl; exact H2].
+  - f_equal. revert ys H. induction IH as [|x xs Hx _ IHl]; intros [|y ys] H; try discriminate H; [reflexivity|].
+    apply andb_true_iff in H. destruct H as [H1 H2]. f_equal; [|apply IHl; exact H2].
+    destruct x as [x|], y as [y|]; try discriminate H1; [|reflexivity]. f_equal. apply Hx. exact H1.
+  - apply andb_true_iff in H. destruct H as [H1 H2]. apply N.eqb_eq in H1. apply IH in H2. congruence.
+  - apply N.eqb_eq in H. congruence.
+Qed.
+
+
+
+(** * writer state basics *)
+Definition wst_wf (w : wst) : Prop := w_n w = N.of_nat (length (w_rbits w)).
+
+Lemma rev_append_app {A} (a b r : list A) : rev_append (a ++ b) r = rev_append b (rev_append a r).
+Proof. revert r. induction a as [|x a IH]; intros r; cbn [app rev_append]; auto. Qed.
+
+Lemma w_append_app w a b : w_append (w_append w a) b = w_append w (a ++ b).
+Proof.
+  unfold w_append. cbn [w_rbits w_n w_scope]. rewrite rev_append_app, app_length. f_equal. lia.
+Qed.
+Lemma w_append_nil w : w_append w [] = w.
+Proof. destruct w. unfold w_append. cbn. f_equal. lia. Qed.
+Lemma w_bits_append w b : w_bits (w_append w b) = w_bits w ++ b.
+Proof.
+  unfold w_bits, w_append, frev. cbn [w_rbits]. rewrite !rev_append_rev, !app_nil_r, rev_app_distr, rev_involutive.
+  reflexivity.
+Qed.
+Lemma w_append_wf w b : wst_wf w -> wst_wf (w_append w b).
+Proof. unfold wst_wf, w_append. cbn [w_n w_rbits]. rewrite rev_append_rev, app_length, rev_length. lia. Qed.
+Lemma w_append_scope w b : w_scope (w_append w b) = w_scope w.
+Proof. reflexivity. Qed.
+Lemma w_append_n w b : w_n (w_append w b) = w_n w + bl b.
+Proof. reflexivity. Qed.
+Lemma w_set_scope_wf w sc : wst_wf w -> wst_wf (w_set_scope w sc).
+Proof. auto. Qed.
+Lemma w_empty_wf : wst_wf w_empty. Proof. reflexivity. Qed.
+Lemma w_set_scope_append w sc b : w_set_scope (w_append w b) sc = w_append (w_set_scope w sc) b.
+Proof. reflexivity. Qed.
+Lemma w_set_scope_set w a b : w_set_scope (w_set_scope w a) b = w_set_scope w b.
+Proof. reflexivity. Qed.
+Lemma w_set_scope_id w : w_set_scope w (w_scope w) = w.
+Proof. destruct w; reflexivity. Qed.
+Lemma w_bits_empty_append b : w_bits (w_append w_empty b) = b.
+Proof. rewrite w_bits_append. reflexivity. Qed.
+
+Lemma set_nth_app {A} (X : list A) a Y b : set_nth (X ++ a :: Y) (length X) b = X ++ b :: Y.
+Proof. induction X as [|x X IH]; cbn [app length set_nth]; [reflexivity|]. rewrite IH. reflexivity. Qed.
+
+(* back-patching one bit of what was appended after [w0] *)
+Lemma w_patch_spec w0 sc A old B bit : wst_wf w0 ->
+  w_patch (w_set_scope (w_append w0 (A ++ old :: B)) sc) (w_n w0 + bl A) bit
+  = Ok (w_set_scope (w_append w0 (A ++ bit :: B)) sc).
+Proof.
+  intros Hw. unfold w_patch, w_set_scope, w_append. cbn [w_rbits w_n w_scope].
+  rewrite !app_length. cbn [length]. unfold bl.
+  destruct (N.ltb_spec (w_n w0 + N.of_nat (length A)) (w_n w0 + N.of_nat (length A + S (length B)))); [|lia].
+  f_equal. f_equal.
+  rewrite !rev_append_rev, !rev_app_distr. cbn [rev]. rewrite <- !app_assoc. cbn [app].
+  replace (N.to_nat (w_n w0 + N.of_nat (length A + S (length B)) - 1 - (w_n w0 + N.of_nat (length A))))
+    with (length (rev B)) by (rewrite rev_length; lia).
+  apply set_nth_app.
+Qed.
+
+(** the comparison of a writer run with a reference encoding: success with exactly these bits
+    appended, or failure on both sides *)
+Definition wsim (r : res wst) (w : wst) (e : res bits) : Prop :=
+  match e with Ok b => r = Ok (w_append w b) | _ => is_ok r = false end.
+
+Lemma w_put_ok w r b : r = Ok b -> w_put w r = Ok (w_append w b).
+Proof. intros ->. reflexivity. Qed.
+
+Lemma wsim_put w e : wsim (w_put w e) w e.
+Proof. destruct e; reflexivity. Qed.
+
+(** * scope factoring: every write_* method first runs the bit-field entry of the enclosing
+    scope, then writes its content either directly (restoring the scope) or, inside an
+    extension-addition scope, into a fresh buffer that is appended as an open type *)
+Definition wopen (w : wst) : bool :=
+  match w_scope w with Some s => encode_as_open_type_field s | None => false end.
+
+Definition shape (t : ty) (v : val) : bool :=
+  match t, v with
+  | TBool, VBool _ | TNull, VNull | TInt _ _ _ _, VInt _ | TStr _ _ _ _, VStr _
+  | TOctets _ _ _, VOctets _ | TBitStr _ _ _, VBits _ _ | TListOf _ _ _ _, VList _
+  | TSeq _ _ _ _, VSeq _ | TChoice _ _ _, VChoice _ _ | TEnum _ _ _, VEnum _ => true
+  | _, _ => false
+  end.
+
+Lemma entry_none m w p : w_scope w = None -> write_bit_field_entry m w false p = Ok w.
+Proof. unfold write_bit_field_entry. intros ->. reflexivity. Qed.
+
+Lemma with_buffer_none m w f : w_scope w = None -> with_buffer m w f = f w.
+Proof. unfold with_buffer. intros ->. reflexivity. Qed.
+
+Definition scope_nat (f : wst -> res wst) : Prop :=
+  forall w, f w = let! w2 := f (w_set_scope w None) in Ok (w_set_scope w2 (w_scope w)).
+
+Lemma with_buffer_factor m w1 f : scope_nat f ->
+  with_buffer m w1 f =
+  if wopen w1 then
+    let! sub := with_buffer m w_empty f in w_put w1 (wrap_open m (w_bits sub))
+  else
+    let! w2 := with_buffer m (w_set_scope w1 None) f in Ok (w_set_scope w2 (w_scope w1)).
+Proof.
+  intros Hf. unfold with_buffer at 2 3. cbn [w_scope w_empty w_set_scope].
+  unfold with_buffer, wopen. destruct (w_scope w1) as [sc|] eqn:E.
+  - destruct (encode_as_open_type_field sc); [reflexivity|]. rewrite (Hf w1), E. reflexivity.
+  - rewrite (Hf w1), E. reflexivity.
+Qed.
+
+Lemma scope_nat_put r : scope_nat (fun w => w_put w r).
+Proof. intros w. destruct r, w; reflexivity. Qed.
+Lemma scope_nat_stashed g : scope_nat (fun w => scope_stashed w g).
+Proof.
+  intros w. unfold scope_stashed. cbn [w_scope w_set_scope].
+  change (w_set_scope (w_set_scope w None) None) with (w_set_scope w None).
+  destruct (g (w_set_scope w None)); reflexivity.
+Qed.
+Lemma scope_nat_pushed m (pre : wst -> wst) (sc : wst -> scope) g :
+  (forall w s, pre (w_set_scope w s) = w_set_scope (pre w) s) ->
+  (forall w s, sc (w_set_scope w s) = sc w) ->
+  scope_nat (fun w => scope_pushed m (pre w) (sc w) g).
+Proof.
+  intros Hp Hs w. unfold scope_pushed. rewrite Hp, Hs. cbn [w_scope w_set_scope].
+  assert (E : w_scope (pre w) = w_scope w).
+  { rewrite <- (w_set_scope_id w) at 1. rewrite Hp. reflexivity. }
+  rewrite E.
+  change (w_set_scope (w_set_scope (pre w) None) (Some (sc w))) with (w_set_scope (pre w) (Some (sc w))).
+  destruct (g (w_set_scope (pre w) (Some (sc w)))) as [w'| |]; cbn [bind]; try reflexivity.
+  destruct (debug_asserts m && _); cbn [bind]; reflexivity.
+Qed.
+
+Lemma wel_eq m w ext lo hi up len :
+  write_ext_bit_and_length m w ext lo hi up len = w_put w (len_hdr m ext lo hi up len).
+Proof.
+  unfold write_ext_bit_and_length, len_hdr.
+  destruct ((len <? opt_or lo 0) || (opt_or hi up <? len)), ext; cbn [negb];
+    try reflexivity;
+    match goal with |- context [w_length_determinant ?a ?b ?c ?d] => destruct (w_length_determinant a b c d) as [[b0 fs0]| |] end;
+    cbn [bind w_put app]; rewrite ?w_append_app; reflexivity.
+Qed.
+
+Lemma write_ty_factor m t v w : shape t v = true ->
+  write_ty m t v w =
+  let! w1 := write_bit_field_entry m w false true in
+  if wopen w1 && negb (is_choice t) then
+    let! sub := write_ty m t v w_empty in
+    w_put w1 (wrap_open m (w_bits sub))
+  else
+    let! w2 := write_ty m t v (w_set_scope w1 None) in Ok (w_set_scope w2 (w_scope w1)).
+Proof.
+  intros Hs.
+  destruct t as [| |k lo hi ext|c lo hi ext|lo hi ext|lo hi ext|e lo hi ext|fs so fc ea|alts std ext|vc std ext], v;
+    try discriminate Hs; clear Hs; try destruct c.
+  all: cbn [write_ty is_choice negb andb].
+  all: destruct (write_bit_field_entry m w false true) as [w1| |]; cbn [bind]; try reflexivity.
+  all: rewrite ?andb_true_r, ?andb_false_r.
+  all: rewrite !entry_none by reflexivity; cbn [bind].
+  all: try (apply with_buffer_factor; first [apply scope_nat_put | apply scope_nat_stashed | idtac]).
+  - intros [rb n sc]; reflexivity.
+  - intros [rb n sc]; reflexivity.
+  - intros [rb n sc]. destruct ext; cbn [w_set_scope w_scope];
+      match goal with |- context [if ?c then _ else _] => destruct c end;
+      match goal with |- context [w_put _ ?r] => destruct r end; reflexivity.
+  - match goal with |- context [if ?c then _ else _] => destruct c end; [intros w0; reflexivity|apply scope_nat_put].
+  - destruct (find_invalid _ _); [intros w0; reflexivity|]. intros w0. rewrite !wel_eq.
+    destruct (len_hdr _ _ _ _ _ _), w0; reflexivity.
+  - destruct (find_invalid _ _); [intros w0; reflexivity|]. intros w0. rewrite !wel_eq.
+    destruct (len_hdr _ _ _ _ _ _), w0; reflexivity.
+  - destruct (find_invalid _ _); [intros w0; reflexivity|]. intros w0. rewrite !wel_eq.
+    destruct (len_hdr _ _ _ _ _ _), w0; reflexivity.
+  - destruct (find_invalid _ _); [intros w0; reflexivity|]. intros w0. rewrite !wel_eq.
+    destruct (len_hdr _ _ _ _ _ _), w0; reflexivity.
+  - destruct ea as [e|].
+    + destruct (usub m fc (e + 1)) as [nx| |]; cbn [bind]; try (intros w0; reflexivity).
+      apply (scope_nat_pushed m (fun w0 => w_append (w_append w0 [false]) (repeat false (N.to_nat so)))
+               (fun w0 => ExtSeq (w_n w0) (Some (w_n (w_append w0 [false]), w_n (w_append w0 [false]) + so)) (e + 1) nx));
+        intros; reflexivity.
+    + apply (scope_nat_pushed m (fun w0 => w_append w0 (repeat false (N.to_nat so)))
+               (fun w0 => OptBitField (w_n w0) (w_n w0 + so))); intros; reflexivity.
+  - apply (scope_nat_stashed _ w1).
+Qed.
+
+
+
+(** * reader: scope factoring *)
+Definition ropen (r : rst) : bool :=
+  match r_scope r with Some s => encode_as_open_type_field s | None => false end.
+
+Definition rscope_nat {A} (f : rst -> res (A * rst)) : Prop :=
+  forall r, f r = let! (x, r2) := f (r_set_scope r None) in Ok (x, r_set_scope r2 (r_scope r)).
+
+Lemma r_set_scope_id r : r_set_scope r (r_scope r) = r.
+Proof. destruct r; reflexivity. Qed.
+
+Lemma rwith_buffer_factor {A} m r1 (f : rst -> res (A * rst)) : rscope_nat f ->
+  rwith_buffer m r1 f =
+  if ropen r1 then
+    let! (len, r2) := r_get r1 (r_length_determinant m None None) in
+    let! (x, r3) := read_whole_sub_slice m (r_set_scope r2 None) len f in
+    Ok (x, r_set_scope r3 (r_scope r1))
+  else
+    let! (x, r2) := f (r_set_scope r1 None) in Ok (x, r_set_scope r2 (r_scope r1)).
+Proof.
+  intros Hf. unfold rwith_buffer, ropen. destruct (r_scope r1) as [sc|] eqn:E.
+  - destruct (encode_as_open_type_field sc).
+    + unfold r_get. destruct (r_length_determinant m None None (r_src r1)) as [[len s]| |]; cbn [bind]; try reflexivity.
+      unfold read_whole_sub_slice. cbn [r_src r_set_src r_set_scope].
+      destruct (umul m len BYTE_LEN) as [lb| |]; cbn [bind]; try reflexivity.
+      destruct (uadd m (s_pos s) lb) as [wp| |]; cbn [bind]; try reflexivity.
+      rewrite (Hf (r_set_src r1 s)). cbn [r_set_scope r_set_src r_src r_scope]. rewrite E.
+      destruct (f _) as [[x r3]| |]; reflexivity.
+    + rewrite (Hf r1), E. reflexivity.
+  - rewrite (Hf r1), E. reflexivity.
+Qed.
+
+Lemma rscope_nat_get {A B} (g : src -> res (A * src)) (k : A -> B) :
+  rscope_nat (fun r => let! (a, r) := r_get r g in Ok (k a, r)).
+Proof.
+  intros r. unfold r_get. cbn [r_src r_set_scope]. destruct (g (r_src r)) as [[a s]| |]; reflexivity.
+Qed.
+Lemma rscope_nat_get' {A} (g : src -> res (A * src)) : rscope_nat (fun r => r_get r g).
+Proof.
+  intros r. unfold r_get. cbn [r_src r_set_scope]. destruct (g (r_src r)) as [[a s]| |]; reflexivity.
+Qed.
+Lemma rscope_nat_stashed {A} (g : rst -> res (A * rst)) : rscope_nat (fun r => rscope_stashed r g).
+Proof.
+  intros r. unfold rscope_stashed. cbn [r_scope r_set_scope r_src].
+  change (r_set_scope (r_set_scope r None) None) with (r_set_scope r None).
+  destruct (g (r_set_scope r None)) as [[a r']| |]; reflexivity.
+Qed.
+
+Lemma rentry_none m r : r_scope r = None -> read_bit_field_entry_st m r false = Ok (f_ok None, r).
+Proof. unfold read_bit_field_entry_st. intros ->. reflexivity. Qed.
+Lemma rentry_none' m r : r_scope r = None -> read_bit_field_entry m r false = Ok (None, r).
+Proof. unfold read_bit_field_entry. intros H. rewrite rentry_none by exact H. reflexivity. Qed.
+
+Lemma rwith_buffer_none {A} m r (f : rst -> res (A * rst)) : r_scope r = None -> rwith_buffer m r f = f r.
+Proof. unfold rwith_buffer. intros ->. reflexivity. Qed.
+
+Lemma read_factor_gen m t f :
+  rscope_nat f ->
+  (forall r' ob' r1', read_bit_field_entry_st m r' false = Ok (inl ob', r1') ->
+     read_ty m t r' = rwith_buffer m r1' f) ->
+  forall r ob r1, read_bit_field_entry_st m r false = Ok (inl ob, r1) ->
+  read_ty m t r =
+  if ropen r1 then
+    let! (len, r2) := r_get r1 (r_length_determinant m None None) in
+    let! (x, r3) := read_whole_sub_slice m (r_set_scope r2 None) len (read_ty m t) in
+    Ok (x, r_set_scope r3 (r_scope r1))
+  else
+    let! (x, r2) := read_ty m t (r_set_scope r1 None) in Ok (x, r_set_scope r2 (r_scope r1)).
+Proof.
+  intros Hf Hrt r ob r1 He.
+  assert (Hn : forall r', r_scope r' = None -> read_ty m t r' = f r').
+  { intros r' Hr'. rewrite (Hrt r' None r') by (apply rentry_none; exact Hr').
+    apply rwith_buffer_none. exact Hr'. }
+  rewrite (Hrt _ _ _ He), (rwith_buffer_factor m r1 f Hf).
+  destruct (ropen r1).
+  - destruct (r_get r1 _) as [[len r2]| |]; cbn [bind]; try reflexivity.
+    unfold read_whole_sub_slice. rewrite (Hn (r_set_scope r2 None)) by reflexivity. reflexivity.
+  - rewrite (Hn (r_set_scope r1 None)) by reflexivity. reflexivity.
+Qed.
+
+Lemma rsn_bind {A B} (g : rst -> res (A * rst)) (k : A -> rst -> res (B * rst)) :
+  rscope_nat g -> (forall a, rscope_nat (k a)) ->
+  rscope_nat (fun r => let! (a, r') := g r in k a r').
+Proof.
+  intros Hg Hk r. rewrite (Hg r). destruct (g (r_set_scope r None)) as [[a r2]| |]; cbn [bind]; try reflexivity.
+  rewrite (Hk a (r_set_scope r2 (r_scope r))), (Hk a r2). cbn [r_set_scope r_scope r_src].
+  change (r_set_scope (r_set_scope r2 (r_scope r)) None) with (r_set_scope r2 None).
+  destruct (k a (r_set_scope r2 None)) as [[x r3]| |]; reflexivity.
+Qed.
+Lemma rsn_bind0 {A B} (c : res A) (k : A -> rst -> res (B * rst)) :
+  (forall a, rscope_nat (k a)) -> rscope_nat (fun r => let! a := c in k a r).
+Proof. intros Hk r. destruct c as [a| |]; cbn [bind]; try reflexivity. apply Hk. Qed.
+Lemma rsn_ret {A} (a : A) : rscope_nat (fun r => Ok (a, r)).
+Proof. intros [s sc]; reflexivity. Qed.
+Lemma rsn_err {A} e : rscope_nat (fun r => @Err (A * rst) e).
+Proof. intros r; reflexivity. Qed.
+Lemma rsn_panic {A} e : rscope_nat (fun r => @Panic (A * rst) e).
+Proof. intros r; reflexivity. Qed.
+Lemma rsn_if {A} (c : bool) (f g : rst -> res (A * rst)) :
+  rscope_nat f -> rscope_nat g -> rscope_nat (fun r => if c then f r else g r).
+Proof. destruct c; auto. Qed.
+Lemma rsn_len_ext m ext lo hi : rscope_nat (fun r => read_len_ext m r ext lo hi).
+Proof.
+  unfold read_len_ext. destruct ext; [|apply rscope_nat_get'].
+  apply rsn_bind; [apply rscope_nat_get'|]. intros [|]; apply rscope_nat_get'.
+Qed.
+Lemma rsn_read_chars n w : forall acc, rscope_nat (fun r => read_chars n w r acc).
+Proof.
+  induction n as [|n IH]; intros acc; cbn [read_chars]; [apply rsn_ret|].
+  apply rsn_bind; [apply rscope_nat_get'|]. intros a. apply IH.
+Qed.
+Lemma rsn_pushed {A} m (pre : rst -> rst) (sc : rst -> scope) (g : rst -> res (A * rst)) :
+  (forall r s, pre (r_set_scope r s) = r_set_scope (pre r) s) ->
+  (forall r s, sc (r_set_scope r s) = sc r) ->
+  rscope_nat (fun r => rscope_pushed m (pre r) (sc r) g).
+Proof.
+  intros Hp Hs r. unfold rscope_pushed. rewrite Hp, Hs. cbn [r_scope r_set_scope r_src].
+  assert (E : r_scope (pre r) = r_scope r).
+  { rewrite <- (r_set_scope_id r) at 1. rewrite Hp. reflexivity. }
+  rewrite E.
+  change (r_set_scope (r_set_scope (pre r) None) (Some (sc r))) with (r_set_scope (pre r) (Some (sc r))).
+  destruct (g (r_set_scope (pre r) (Some (sc r)))) as [[a r']| |]; cbn [bind]; try reflexivity.
+  destruct (debug_asserts m && _); cbn [bind]; reflexivity.
+Qed.
+
+Ltac rsn :=
+  repeat first
+    [ apply rscope_nat_get' | apply rsn_ret | apply rsn_err | apply rsn_panic | apply rsn_len_ext
+    | apply rsn_read_chars | apply rscope_nat_stashed
+    | apply rsn_if
+    | apply rsn_bind0; intros ?
+    | apply rsn_bind; [|intros ?] ].
+
+Lemma rsn_pushed_at {A} m s sc0 scp (g : rst -> res (A * rst)) :
+  rscope_pushed m {| r_src := s; r_scope := sc0 |} scp g =
+  let! (x, r2) := rscope_pushed m {| r_src := s; r_scope := None |} scp g in Ok (x, r_set_scope r2 sc0).
+Proof.
+  unfold rscope_pushed. cbn [r_scope r_set_scope r_src].
+  destruct (g _) as [[a r']| |]; cbn [bind]; try reflexivity.
+  destruct (debug_asserts m && _); reflexivity.
+Qed.
+
+Lemma read_ty_factor m t r ob r1 :
+  read_bit_field_entry_st m r false = Ok (inl ob, r1) ->
+  read_ty m t r =
+  if ropen r1 && negb (is_choice t) then
+    let! (len, r2) := r_get r1 (r_length_determinant m None None) in
+    let! (x, r3) := read_whole_sub_slice m (r_set_scope r2 None) len (read_ty m t) in
+    Ok (x, r_set_scope r3 (r_scope r1))
+  else
+    let! (x, r2) := read_ty m t (r_set_scope r1 None) in Ok (x, r_set_scope r2 (r_scope r1)).
+Proof.
+  destruct t as [| |k lo hi ext|c lo hi ext|lo hi ext|lo hi ext|e lo hi ext|fs so fc ea|alts std ext|vc std ext];
+    try destruct c.
+  all: cbn [is_choice negb]; rewrite ?andb_true_r, ?andb_false_r; revert r ob r1.
+  all: try (eapply read_factor_gen;
+            [|intros r' ob' r1' He'; cbn [read_ty]; unfold read_bit_field_entry; rewrite He'; cbn [bind]; reflexivity]).
+  all: try solve [rsn].
+  - apply (rsn_bind (fun r => r_get r (r_bitstring m lo hi ext))
+             (fun a r0 => let '(bs, bl, buflen) := a in
+                Ok (VBits (bytes_of_bits bs ++ repeat 0 (N.to_nat buflen - length (bytes_of_bits bs))) bl, r0))); [rsn|].
+    intros [[bs bl] bf]. rsn.
+  - intros [s sc]. cbn [r_set_scope r_src r_scope].
+    destruct ea as [e|]; unfold r_get; cbn [r_src r_set_src r_set_scope bind].
+    + destruct (r_bit s) as [[b s']| |]; cbn [bind r_src r_set_src r_set_scope r_scope]; try reflexivity.
+      destruct (src_remaining m s') as [rem| |]; cbn [bind]; try reflexivity.
+      destruct (rem <? so); try reflexivity.
+      destruct (uadd m (s_pos s') so) as [stop| |]; cbn [bind]; try reflexivity.
+      destruct b.
+      * destruct (usub m fc (e + 1)) as [nx| |]; cbn [bind]; try reflexivity. apply rsn_pushed_at.
+      * apply rsn_pushed_at.
+    + destruct (src_remaining m s) as [rem| |]; cbn [bind]; try reflexivity.
+      destruct (rem <? so); try reflexivity.
+      destruct (uadd m (s_pos s) so) as [stop| |]; cbn [bind]; try reflexivity.
+      apply rsn_pushed_at.
+  - intros r ob r1 He. cbn [read_ty]. unfold read_bit_field_entry. rewrite He, rentry_none by reflexivity.
+    cbn [bind]. apply (rscope_nat_stashed _ r1).
+  - eapply (read_factor_gen m _ (fun r => let! (index, r) := r_get r (r_enumeration_index m std ext) in
+                                            if index <? vc then Ok (VEnum index, r) else Err E_INVALID_CHOICE)).
+    + apply rsn_bind; [rsn|]. intros a. rsn.
+    + intros r' ob' r1' He'. cbn [read_ty]. unfold read_bit_field_entry. rewrite He'. cbn [bind].
+      unfold rwith_buffer. destruct (match r_scope r1' with Some s => encode_as_open_type_field s | None => false end).
+      * destruct (r_get r1' (r_length_determinant m None None)) as [[len r2]| |]; cbn [bind]; try reflexivity.
+        unfold read_whole_sub_slice.
+        destruct (umul m len BYTE_LEN) as [lb| |]; cbn [bind]; try reflexivity.
+        destruct (uadd m (s_pos (r_src r2)) lb) as [wp| |]; cbn [bind]; try reflexivity.
+        destruct (r_get r2 (r_enumeration_index m std ext)) as [[i r3]| |]; cbn [bind]; try reflexivity.
+        destruct (i <? vc); reflexivity.
+      * reflexivity.
+Qed.
+
+
+
+(** * the writer against [enc]: flat types, SEQUENCE OF, CHOICE *)
+Definition welems (m : mode) (e : ty) :=
+  fix elems (vs : list val) (w : wst) : res wst :=
+    match vs with
+    | [] => Ok w
+    | x :: vs' => let! w := write_ty m e x w in elems vs' w
+    end.
+Definition enc_elems (m : mode) (e : ty) :=
+  fix elems (vs : list val) : res bits :=
+    match vs with
+    | [] => Ok []
+    | x :: r => let! a := enc m e x in let! b := elems r in Ok (a ++ b)
+    end.
+Definition wpick (m : mode) (x : val) (w : wst) :=
+  fix pick (alts : list ty) (i : nat) : res wst :=
+    match alts, i with
+    | a :: _, O => write_ty m a x w
+    | _ :: r, S i' => pick r i'
+    | [], _ => Panic P_OTHER
+    end.
+Definition enc_pick (m : mode) (x : val) :=
+  fix pick (alts : list ty) (i : nat) : res bits :=
+    match alts, i with
+    | a :: _, O => enc m a x
+    | _ :: r, S i' => pick r i'
+    | [], _ => Panic P_OTHER
+    end.
+
+Definition Wprop (m : mode) (t : ty) : Prop :=
+  forall v w, wst_wf w -> w_scope w = None -> wsim (write_ty m t v w) w (enc m t v).
+
+Lemma scope_stashed_none w f : w_scope w = None ->
+  scope_stashed w f = let! w' := f w in Ok (w_set_scope w' None).
+Proof. destruct w as [rb n sc]. cbn [w_scope]. intros ->. reflexivity. Qed.
+
+Lemma set_none_append w b : w_scope w = None -> w_set_scope (w_append w b) None = w_append w b.
+Proof. destruct w as [rb n sc]. cbn [w_scope]. intros ->. reflexivity. Qed.
+
+Lemma not_ok_bind {A B} (r : res A) (f : A -> res B) : is_ok r = false -> is_ok (bind r f) = false.
+Proof. destruct r; cbn; congruence. Qed.
+
+Lemma write_flat_eq m t v w : w_scope w = None ->
+  match t with TListOf _ _ _ _ | TSeq _ _ _ _ | TChoice _ _ _ => True
+  | _ => write_ty m t v w = w_put w (enc m t v) end.
+Proof.
+  intros Hs.
+  destruct t as [| |k lo hi ext|c lo hi ext|lo hi ext|lo hi ext|e lo hi ext|fs so fc ea|alts std ext|vc std ext];
+    try exact I; try destruct c; destruct v; try reflexivity;
+    cbn [write_ty enc]; rewrite entry_none by exact Hs; cbn [bind]; rewrite with_buffer_none by exact Hs;
+    try reflexivity.
+  - cbn [w_put bind]. rewrite w_append_nil. reflexivity.
+  - unfold int_enc. destruct ext;
+      match goal with |- context [if ?c then _ else _] => destruct c end;
+      match goal with |- context [w_put _ ?r] => destruct r end; cbn [w_put bind app]; rewrite ?w_append_app; reflexivity.
+  - destruct (negb ext && _); reflexivity.
+  - destruct (find_invalid _ _); [reflexivity|]. rewrite wel_eq.
+    destruct (len_hdr _ _ _ _ _ _); cbn [w_put bind]; rewrite ?w_append_app; reflexivity.
+  - destruct (find_invalid _ _); [reflexivity|]. rewrite wel_eq.
+    destruct (len_hdr _ _ _ _ _ _); cbn [w_put bind]; rewrite ?w_append_app; reflexivity.
+  - destruct (find_invalid _ _); [reflexivity|]. rewrite wel_eq.
+    destruct (len_hdr _ _ _ _ _ _); cbn [w_put bind]; rewrite ?w_append_app; reflexivity.
+  - destruct (find_invalid _ _); [reflexivity|]. rewrite wel_eq.
+    destruct (len_hdr _ _ _ _ _ _); cbn [w_put bind]; rewrite ?w_append_app; reflexivity.
+Qed.
+
+Lemma welems_sim m e : Wprop m e ->
+  forall vs w, wst_wf w -> w_scope w = None -> wsim (welems m e vs w) w (enc_elems m e vs).
+Proof.
+  intros IH. induction vs as [|x vs IHl]; intros w Hw Hs; cbn [welems enc_elems].
+  - cbn [wsim]. rewrite w_append_nil. reflexivity.
+  - pose proof (IH x w Hw Hs) as Hx. unfold wsim in Hx.
+    destruct (enc m e x) as [a| |]; cbn [bind]; try (apply not_ok_bind; exact Hx).
+    rewrite Hx. cbn [bind].
+    pose proof (IHl (w_append w a) (w_append_wf _ _ Hw) Hs) as Hr. unfold wsim in Hr.
+    destruct (enc_elems m e vs) as [b| |]; cbn [bind wsim]; try exact Hr.
+    rewrite Hr, w_append_app. reflexivity.
+Qed.
+
+Lemma W_list m e lo hi ext : Wprop m e -> Wprop m (TListOf e lo hi ext).
+Proof.
+  intros IH v w Hw Hs. destruct v; try reflexivity.
+  cbn [write_ty enc]. rewrite entry_none by exact Hs. cbn [bind]. rewrite with_buffer_none by exact Hs.
+  rewrite scope_stashed_none by exact Hs. rewrite wel_eq.
+  change (fix elems (vs0 : list val) : res bits := match vs0 with [] => Ok [] | x :: r => let! a := enc m e x in let! b := elems r in Ok (a ++ b) end) with (enc_elems m e).
+  change (fix elems (vs0 : list val) (w5 : wst) {struct vs0} : res wst := match vs0 with [] => Ok w5 | x :: vs' => let! w6 := write_ty m e x w5 in elems vs' w6 end) with (welems m e).
+  destruct (len_hdr m ext lo hi I64_MAX (N.of_nat (length vs))) as [h| |]; cbn [w_put bind wsim]; try reflexivity.
+  rewrite scope_stashed_none by exact Hs.
+  pose proof (welems_sim m e IH vs (w_append w h) (w_append_wf _ _ Hw) Hs) as Hr. unfold wsim in Hr.
+  destruct (enc_elems m e vs) as [b| |]; cbn [bind].
+  - rewrite Hr. cbn [bind]. rewrite w_append_app, !set_none_append by exact Hs. reflexivity.
+  - destruct (welems m e vs (w_append w h)); try discriminate Hr; reflexivity.
+  - destruct (welems m e vs (w_append w h)); try discriminate Hr; reflexivity.
+Qed.
+
+Lemma wpick_sim m x : forall alts, Forall (Wprop m) alts ->
+  forall i w, wst_wf w -> w_scope w = None -> wsim (wpick m x w alts i) w (enc_pick m x alts i).
+Proof.
+  induction alts as [|a alts IHl]; intros F i w Hw Hs; cbn [wpick enc_pick]; [reflexivity|].
+  apply Forall_cons_iff in F. destruct F as [Ha F]. destruct i as [|i]; [apply Ha; assumption|].
+  apply IHl; assumption.
+Qed.
+
+Lemma W_choice m alts std ext : Forall (Wprop m) alts -> Wprop m (TChoice alts std ext).
+Proof.
+  intros F v w Hw Hs. destruct v; try reflexivity.
+  cbn [write_ty enc]. rewrite entry_none by exact Hs. cbn [bind].
+  rewrite scope_stashed_none by exact Hs.
+  change (fix pick (alts0 : list ty) (i : nat) {struct alts0} : res bits :=
+            match alts0 with [] => Panic P_OTHER | a :: r => match i with 0%nat => enc m a v | S i' => pick r i' end end)
+    with (enc_pick m v).
+  destruct (w_enumeration_index m std ext index) as [ib| |]; cbn [w_put bind wsim]; try reflexivity.
+  destruct (std <=? index).
+  - change (fix pick (alts0 : list ty) (i : nat) {struct alts0} : res wst :=
+            match alts0 with [] => Panic P_OTHER | a :: r => match i with 0%nat => write_ty m a v w_empty | S i' => pick r i' end end)
+      with (wpick m v w_empty).
+    pose proof (wpick_sim m v alts F (N.to_nat index) w_empty w_empty_wf eq_refl) as Hr. unfold wsim in Hr.
+    destruct (enc_pick m v alts (N.to_nat index)) as [cb| |]; cbn [bind].
+    + rewrite Hr. cbn [bind]. rewrite w_bits_empty_append. fold (wrap_open m cb).
+      destruct (wrap_open m cb) as [wb| |]; cbn [w_put bind]; try reflexivity.
+      rewrite w_append_app, set_none_append by exact Hs. reflexivity.
+    + destruct (wpick m v w_empty alts (N.to_nat index)); try discriminate Hr; reflexivity.
+    + destruct (wpick m v w_empty alts (N.to_nat index)); try discriminate Hr; reflexivity.
+  - change (fix pick (alts0 : list ty) (i : nat) {struct alts0} : res wst :=
+            match alts0 with [] => Panic P_OTHER | a :: r => match i with 0%nat => write_ty m a v (w_append w ib) | S i' => pick r i' end end)
+      with (wpick m v (w_append w ib)).
+    pose proof (wpick_sim m v alts F (N.to_nat index) (w_append w ib) (w_append_wf _ _ Hw) Hs) as Hr. unfold wsim in Hr.
+    destruct (enc_pick m v alts (N.to_nat index)) as [cb| |]; cbn [bind].
+    + rewrite Hr. cbn [bind]. rewrite w_append_app, set_none_append by exact Hs. reflexivity.
+    + destruct (wpick _ _ _ _ _); try discriminate Hr; reflexivity.
+    + destruct (wpick _ _ _ _ _); try discriminate Hr; reflexivity.
+Qed.
+
+
+
+(** * octet padding: bytes_of_bits / bits_of_bytes *)
+Definition pad8 (n : nat) : nat := ((8 - n mod 8) mod 8)%nat.
+
+Lemma byte_bits_of_bits8 b0 b1 b2 b3 b4 b5 b6 b7 :
+  byte_bits (byte_of_bits [b0; b1; b2; b3; b4; b5; b6; b7]) = [b0; b1; b2; b3; b4; b5; b6; b7]
+  /\ byte_of_bits [b0; b1; b2; b3; b4; b5; b6; b7] < 256.
+Proof. destruct b0, b1, b2, b3, b4, b5, b6, b7; vm_compute; split; reflexivity. Qed.
+
+Lemma byte_of_bits_pad l : (length l <= 8)%nat ->
+  byte_of_bits l = byte_of_bits (l ++ repeat false (8 - length l)).
+Proof.
+  intros H. unfold byte_of_bits.
+  assert (E : forall i, nth i (l ++ repeat false (8 - length l)) false = nth i l false).
+  { intros i. destruct (Nat.lt_ge_cases i (length l)) as [L|L].
+    - apply app_nth1. exact L.
+    - rewrite app_nth2 by exact L. rewrite (nth_overflow l) by exact L.
+      destruct (Nat.lt_ge_cases (i - length l) (8 - length l)) as [L2|L2].
+      + apply nth_repeat.
+      + apply nth_overflow. rewrite repeat_length. exact L2. }
+  rewrite !E. reflexivity.
+Qed.
+
+Lemma list8 {A} (l : list A) : length l = 8%nat ->
+  exists a b c d e f g h, l = [a; b; c; d; e; f; g; h].
+Proof.
+  destruct l as [|a [|b [|c [|d [|e [|f [|g [|h [|i l]]]]]]]]]; cbn [length]; intros H; try discriminate H.
+  repeat eexists.
+Qed.
+
+Lemma bytes_of_bits_fuel_spec : forall fuel l, (length l < fuel)%nat ->
+  bits_of_bytes (bytes_of_bits_fuel fuel l) = l ++ repeat false (pad8 (length l))
+  /\ Forall (fun b => b < 256) (bytes_of_bits_fuel fuel l).
+Proof.
+  induction fuel as [|fuel IH]; intros l Hl; [lia|].
+  cbn [bytes_of_bits_fuel]. destruct l as [|b0 l0] eqn:El; [split; [reflexivity|constructor]|].
+  assert (Hne : (1 <= length l)%nat) by (rewrite El; cbn [length]; lia).
+  rewrite <- El in *. clear El b0 l0.
+  destruct (Nat.lt_ge_cases (length l) 8) as [Hs|Hs].
+  - (* last, partial octet *)
+    assert (Hsk : skipn 8 l = []) by (apply skipn_all2; lia).
+    assert (Hfi : firstn 8 l = l) by (apply firstn_all2; lia).
+    rewrite Hsk, Hfi.
+    assert (Hn : bytes_of_bits_fuel fuel [] = []) by (destruct fuel; reflexivity).
+    rewrite Hn. rewrite byte_of_bits_pad by lia.
+    destruct (list8 (l ++ repeat false (8 - length l))) as (a & b & c & d & e & f & g & h & E).
+    { rewrite app_length, repeat_length. lia. }
+    rewrite E. destruct (byte_bits_of_bits8 a b c d e f g h) as [E1 E2].
+    split.
+    + rewrite bits_cons, E1. cbn [bits_of_bytes flat_map]. rewrite app_nil_r, <- E.
+      f_equal. f_equal. unfold pad8.
+      clear - Hs Hne. revert Hs Hne. generalize (length l). intros n Hs Hne.
+      destruct n as [|[|[|[|[|[|[|[|k]]]]]]]]; try reflexivity; lia.
+    + constructor; [exact E2|constructor].
+  - destruct (IH (skipn 8 l)) as [I1 I2]; [rewrite skipn_length; lia|].
+    destruct (list8 (firstn 8 l)) as (a & b & c & d & e & f & g & h & E); [rewrite firstn_length; lia|].
+    rewrite E. destruct (byte_bits_of_bits8 a b c d e f g h) as [E1 E2].
+    split.
+    + rewrite bits_cons, E1, I1, <- E. rewrite app_assoc, firstn_skipn. f_equal. f_equal.
+      rewrite skipn_length. unfold pad8.
+      replace (length l) with (length l - 8 + 1 * 8)%nat at 2 by lia.
+      rewrite Nat.mod_add by lia. reflexivity.
+    + constructor; assumption.
+Qed.
+
+Lemma bits_of_bytes_of_bits l :
+  bits_of_bytes (bytes_of_bits l) = l ++ repeat false (pad8 (length l)).
+Proof. apply bytes_of_bits_fuel_spec. lia. Qed.
+Lemma bytes_of_bits_bytes l : Forall (fun b => b < 256) (bytes_of_bits l).
+Proof. apply bytes_of_bits_fuel_spec. lia. Qed.
+
+Lemma bytes_of_bits_unique l bytes k : Forall (fun b => b < 256) bytes ->
+  bits_of_bytes bytes = l ++ repeat false k -> (k < 8)%nat ->
+  bytes_of_bits l = bytes.
+Proof.
+  intros Fb E Hk. apply bits_inj; [apply bytes_of_bits_bytes|exact Fb|].
+  rewrite bits_of_bytes_of_bits, E. f_equal. f_equal.
+  pose proof (f_equal (@length bool) E) as EL. rewrite bits_length, app_length, repeat_length in EL.
+  unfold pad8.
+  assert (length l = (8 * length bytes - k))%nat by lia.
+  destruct (Nat.eq_dec k 0) as [->|Hk0].
+  - replace (length l) with (0 + length bytes * 8)%nat by lia. rewrite Nat.mod_add by lia. reflexivity.
+  - assert (1 <= length bytes)%nat by lia.
+    replace (length l) with ((8 - k) + (length bytes - 1) * 8)%nat by lia.
+    rewrite Nat.mod_add by lia. rewrite (Nat.mod_small (8 - k)) by lia.
+    rewrite Nat.mod_small by lia. lia.
+Qed.
+
+Lemma bytes_of_bits_of_bytes bytes : Forall (fun b => b < 256) bytes ->
+  bytes_of_bits (bits_of_bytes bytes) = bytes.
+Proof.
+  intros F. apply (bytes_of_bits_unique _ _ 0%nat F); [|lia]. cbn [repeat]. rewrite app_nil_r. reflexivity.
+Qed.
+
+Lemma bytes_of_bits_len l : blen (bytes_of_bits l) = (bl l + 7) / 8.
+Proof.
+  pose proof (f_equal (@length bool) (bits_of_bytes_of_bits l)) as E.
+  rewrite bits_length, app_length, repeat_length in E. unfold blen, bl, pad8 in *.
+  generalize dependent (length (bytes_of_bits l)). intros L E.
+  pose proof (Nat.div_mod (length l) 8 ltac:(lia)) as D.
+  pose proof (Nat.mod_upper_bound (length l) 8 ltac:(lia)) as U.
+  destruct (Nat.eq_dec (length l mod 8) 0) as [Z|NZ].
+  - rewrite Z in *. change ((8 - 0) mod 8)%nat with 0%nat in E.
+    apply N.div_unique with (r := 7); lia.
+  - rewrite (Nat.mod_small (8 - length l mod 8)) in E by lia.
+    apply N.div_unique with (r := N.of_nat (length l mod 8) - 1); lia.
+Qed.
+
+(** * integers: from_i64 after to_i64 *)
+Lemma from_to_i64 k z : ik_fitsb k z = true -> from_i64 k (to_i64 z) = z.
+Proof.
+  intros H. unfold to_i64, i64_of_u64, u64_of_i64.
+  assert (E64 : Z.of_N two64 = 18446744073709551616%Z) by reflexivity.
+  assert (E63 : two63 = 9223372036854775808) by reflexivity.
+  rewrite E64.
+  assert (Hq : exists q, (if N.ltb (Z.to_N (z mod 18446744073709551616)) two63
+                          then Z.of_N (Z.to_N (z mod 18446744073709551616))
+                          else Z.of_N (Z.to_N (z mod 18446744073709551616)) - 18446744073709551616)%Z
+                         = (z + q * 18446744073709551616)%Z).
+  { pose proof (Z.mod_pos_bound z 18446744073709551616 ltac:(lia)) as B.
+    pose proof (Z.div_mod z 18446744073709551616 ltac:(lia)) as D.
+    destruct (N.ltb_spec (Z.to_N (z mod 18446744073709551616)) two63).
+    - exists (- (z / 18446744073709551616))%Z. lia.
+    - exists (- (z / 18446744073709551616) - 1)%Z. lia. }
+  destruct Hq as [q ->].
+  unfold from_i64, ik_fitsb in *.
+  destruct k; cbn [ik_signed ik_bits] in *;
+    match goal with |- context [(2 ^ Z.of_N ?b)%Z] =>
+      let v := eval vm_compute in (2 ^ Z.of_N b)%Z in change (2 ^ Z.of_N b)%Z with v in * end;
+    match goal with |- context [((?zz + ?qq * 18446744073709551616) mod ?M)%Z] =>
+      replace ((zz + qq * 18446744073709551616) mod M)%Z with (zz mod M)%Z
+        by (replace (qq * 18446744073709551616)%Z with ((qq * (18446744073709551616 / M)) * M)%Z
+              by (cbn; lia); rewrite Z.mod_add by lia; reflexivity) end.
+  all: try (rewrite Z.mod_small by lia; reflexivity).
+  all: cbn in H.
+  all: match goal with |- context [(?zz mod ?M)%Z] =>
+         pose proof (Z.mod_pos_bound zz M ltac:(lia)) as B; pose proof (Z.div_mod zz M ltac:(lia)) as D end.
+  all: match goal with |- context [(?M / 2)%Z] => let v := eval vm_compute in (M / 2)%Z in change (M / 2)%Z with v end.
+  all: match goal with |- (if ?c then _ else _) = _ => destruct c eqn:C end; lia.
+Qed.
+
+
+
+Ltac dlia := Z.to_euclidean_division_equations; lia.
+
+(** * UTF-8 *)
+Lemma utf8_char_decode fuel c rest : scalar c ->
+  utf8_decode_fuel (S fuel) (utf8_char c ++ rest) = option_map (cons c) (utf8_decode_fuel fuel rest).
+Proof.
+  intros Hc. unfold scalar in Hc. unfold utf8_char.
+  destruct (N.ltb_spec c 128) as [H1|H1].
+  { cbn [app utf8_decode_fuel]. destruct (N.ltb_spec c 128); [reflexivity|lia]. }
+  destruct (N.ltb_spec c 2048) as [H2|H2].
+  { cbn [app utf8_decode_fuel].
+    assert (A1 : 192 + c / 64 <? 128 = false) by (apply N.ltb_ge; zify; dlia).
+    assert (A2 : (194 <=? 192 + c / 64) && (192 + c / 64 <? 224) = true).
+    { apply andb_true_iff. split; [apply N.leb_le|apply N.ltb_lt]; zify; dlia. }
+    assert (A3 : is_cont (128 + c mod 64) = true).
+    { unfold is_cont. apply andb_true_iff. split; [apply N.leb_le|apply N.ltb_lt]; zify; dlia. }
+    rewrite A1, A2, A3. do 2 f_equal. zify; dlia. }
+  destruct (N.ltb_spec c 65536) as [H3|H3].
+  { cbn [app utf8_decode_fuel].
+    assert (A1 : 224 + c / 4096 <? 128 = false) by (apply N.ltb_ge; zify; dlia).
+    assert (A2 : (194 <=? 224 + c / 4096) && (224 + c / 4096 <? 224) = false).
+    { apply andb_false_iff. right. apply N.ltb_ge. lia. }
+    assert (A2' : (224 <=? 224 + c / 4096) && (224 + c / 4096 <? 240) = true).
+    { apply andb_true_iff. split; [apply N.leb_le|apply N.ltb_lt]; zify; dlia. }
+    assert (A3 : is_cont (128 + (c / 64) mod 64) = true).
+    { unfold is_cont. apply andb_true_iff. split; [apply N.leb_le|apply N.ltb_lt]; zify; dlia. }
+    assert (A4 : is_cont (128 + c mod 64) = true).
+    { unfold is_cont. apply andb_true_iff. split; [apply N.leb_le|apply N.ltb_lt]; zify; dlia. }
+    assert (E : (224 + c / 4096 - 224) * 4096 + (128 + (c / 64) mod 64 - 128) * 64 + (128 + c mod 64 - 128) = c)
+      by (zify; dlia).
+    rewrite A1, A2, A2', A3, A4, E. cbn [andb].
+    destruct (N.leb_spec 2048 c); [|lia]. cbn [andb].
+    assert (A5 : (55296 <=? c) && (c <? 57344) = false).
+    { apply andb_false_iff. destruct Hc as [Hc|Hc]; [left; apply N.leb_gt; lia|right; apply N.ltb_ge; lia]. }
+    rewrite A5. reflexivity. }
+  cbn [app utf8_decode_fuel].
+  assert (Hc' : c < 1114112) by lia.
+  assert (A1 : 240 + c / 262144 <? 128 = false) by (apply N.ltb_ge; zify; dlia).
+  assert (A2 : (194 <=? 240 + c / 262144) && (240 + c / 262144 <? 224) = false).
+  { apply andb_false_iff. right. apply N.ltb_ge. lia. }
+  assert (A2' : (224 <=? 240 + c / 262144) && (240 + c / 262144 <? 240) = false).
+  { apply andb_false_iff. right. apply N.ltb_ge. lia. }
+  assert (A2'' : (240 <=? 240 + c / 262144) && (240 + c / 262144 <? 245) = true).
+  { apply andb_true_iff. split; [apply N.leb_le|apply N.ltb_lt]; zify; dlia. }
+  assert (A3 : is_cont (128 + (c / 4096) mod 64) = true).
+  { unfold is_cont. apply andb_true_iff. split; [apply N.leb_le|apply N.ltb_lt]; zify; dlia. }
+  assert (A4 : is_cont (128 + (c / 64) mod 64) = true).
+  { unfold is_cont. apply andb_true_iff. split; [apply N.leb_le|apply N.ltb_lt]; zify; dlia. }
+  assert (A5 : is_cont (128 + c mod 64) = true).
+  { unfold is_cont. apply andb_true_iff. split; [apply N.leb_le|apply N.ltb_lt]; zify; dlia. }
+  assert (E : (240 + c / 262144 - 240) * 262144 + (128 + (c / 4096) mod 64 - 128) * 4096
+              + (128 + (c / 64) mod 64 - 128) * 64 + (128 + c mod 64 - 128) = c) by (zify; dlia).
+  rewrite A1, A2, A2', A2'', A3, A4, A5, E. cbn [andb].
+  destruct (N.leb_spec 65536 c); [|lia]. destruct (N.ltb_spec c 1114112); [|lia]. reflexivity.
+Qed.
+
+Lemma utf8_roundtrip_fuel : forall cs fuel, (length cs < fuel)%nat -> Forall scalar cs ->
+  utf8_decode_fuel fuel (utf8_encode cs) = Some cs.
+Proof.
+  induction cs as [|c cs IH]; intros fuel Hf F.
+  - destruct fuel; [lia|reflexivity].
+  - destruct fuel as [|fuel]; [lia|]. apply Forall_cons_iff in F. destruct F as [Hc F].
+    unfold utf8_encode. cbn [flat_map]. rewrite utf8_char_decode by exact Hc.
+    fold (utf8_encode cs). rewrite IH by (cbn [length] in Hf; try lia; exact F). reflexivity.
+Qed.
+
+Lemma utf8_char_len c : (1 <= length (utf8_char c))%nat.
+Proof. unfold utf8_char. destruct (c <? 128), (c <? 2048), (c <? 65536); cbn [length]; lia. Qed.
+Lemma utf8_encode_len cs : (length cs <= length (utf8_encode cs))%nat.
+Proof.
+  induction cs as [|c cs IH]; [cbn; lia|]. unfold utf8_encode. cbn [flat_map length].
+  rewrite app_length. fold (utf8_encode cs). pose proof (utf8_char_len c). lia.
+Qed.
+
+Lemma utf8_roundtrip cs : Forall scalar cs -> utf8_decode (utf8_encode cs) = Some cs.
+Proof.
+  intros F. unfold utf8_decode. apply utf8_roundtrip_fuel; [|exact F].
+  pose proof (utf8_encode_len cs). lia.
+Qed.
+
+Lemma utf8_char_bytes c : scalar c -> Forall (fun b => b < 256) (utf8_char c).
+Proof.
+  intros Hc. unfold scalar in Hc. unfold utf8_char.
+  destruct (N.ltb_spec c 128); [repeat constructor; lia|].
+  destruct (N.ltb_spec c 2048); [repeat constructor; zify; dlia|].
+  destruct (N.ltb_spec c 65536); repeat constructor; zify; dlia.
+Qed.
+Lemma utf8_encode_bytes cs : Forall scalar cs -> Forall (fun b => b < 256) (utf8_encode cs).
+Proof.
+  induction 1 as [|c cs Hc _ IH]; [constructor|]. unfold utf8_encode. cbn [flat_map].
+  apply Forall_app. split; [apply utf8_char_bytes; exact Hc|exact IH].
+Qed.
+
+Lemma utf8_ascii cs : Forall (fun c => c < 128) cs -> utf8_encode cs = cs.
+Proof.
+  induction 1 as [|c cs Hc _ IH]; [reflexivity|]. unfold utf8_encode. cbn [flat_map]. fold (utf8_encode cs).
+  rewrite IH. unfold utf8_char. destruct (N.ltb_spec c 128); [reflexivity|lia].
+Qed.
+Lemma from_utf8_ascii cs : Forall (fun c => c < 128) cs -> from_utf8 cs = Ok (VStr cs).
+Proof.
+  intros F. unfold from_utf8. rewrite <- (utf8_ascii cs F) at 1. rewrite utf8_roundtrip; [reflexivity|].
+  eapply Forall_impl; [|exact F]. intros c Hc. left. cbv beta in Hc. lia.
+Qed.
+
+(** * restricted character strings *)
+Definition cwidth (c : cset) : N := match c with Numeric => 4 | _ => 7 end.
+Definition cdecode (c : cset) (x : N) : N :=
+  match c with Numeric => if x =? 0 then 32 else 32 + 15 + x | _ => x end.
+
+Lemma find_invalid_false c cs : find_invalid c cs = false -> Forall (fun ch => cs_valid c ch = true) cs.
+Proof.
+  induction cs as [|ch cs IH]; cbn [find_invalid]; intros H; [constructor|].
+  apply orb_false_iff in H. destruct H as [H1 H2]. constructor; [|apply IH; exact H2].
+  destruct (cs_valid c ch); [reflexivity|discriminate H1].
+Qed.
+
+Lemma cs_valid_ascii c ch : c <> Utf8 -> cs_valid c ch = true -> ch < 128.
+Proof.
+  intros Hc H. destruct c; try congruence; cbn [cs_valid] in H; lia.
+Qed.
+
+Lemma byte_bits_bov b : byte_bits b = bits_of_val 8 b.
+Proof. reflexivity. Qed.
+
+Lemma char_bits_spec c ch : c <> Utf8 -> cs_valid c ch = true ->
+  bl (char_bits c ch) = cwidth c /\ cdecode c (val_of_bits (char_bits c ch)) = ch.
+Proof.
+  intros Hc Hv. pose proof (cs_valid_ascii c ch Hc Hv) as Ha.
+  assert (Em : ch mod 256 = ch) by (apply N.mod_small; lia).
+  destruct c; try congruence; unfold char_bits; rewrite Em; cbn [cwidth cdecode].
+  1,3,4: rewrite byte_bits_bov; change 8%nat with (1 + 7)%nat; rewrite bov_skipn;
+         split; [unfold bl; rewrite bov_length; reflexivity|apply vob_bov_small; cbn; lia].
+  cbn [cs_valid] in Hv.
+  rewrite byte_bits_bov. change 8%nat with (4 + 4)%nat. rewrite bov_skipn.
+  split; [unfold bl; rewrite bov_length; reflexivity|].
+  destruct (N.eqb_spec (ch - 32) 0) as [E|E].
+  - assert (ch = 32) by lia. subst ch. reflexivity.
+  - assert (E2 : (ch - 32 - 15) mod 256 = ch - 47) by (rewrite N.mod_small; lia).
+    rewrite E2. rewrite vob_bov_small by (cbn; lia).
+    destruct (N.eqb_spec (ch - 47) 0); lia.
+Qed.
